@@ -83,6 +83,11 @@ def val_claims(t, value, base):
         return dict(base, t=tt, lo=x - eps, hi=x + eps), None
     if "undef" in value:
         return None, "undef"
+    if "absprob" in value:
+        # parametric in probabilities of abstracted conditions (each in [0, 1]): enclosure when there is one
+        if "lo" in value and t == "mom":
+            return dict(base, t="momI", lo=F(value["lo"]), hi=F(value["hi"]), tag=str(base.get("tag", "")) + "(abstracted)"), None
+        return None, "abstracted_probability"
     if "free" in value:
         return None, "free"
     if "float" in value:
